@@ -1,0 +1,63 @@
+//go:build verif
+
+package bytes
+
+// Contracts for govc (see /verif/DESIGN.md). Comment-only file: with the
+// build tag off it is not compiled, with it on it contains no code.
+
+//@ func IsBlank(c)
+//@   props C05 C13 C17
+//@   pure
+//@   ensures result == isBlank(c)
+
+//@ func IsSpace(c)
+//@   props C05 C13
+//@   pure
+//@   ensures result == isSpace(c)
+
+//@ func IsNewLine(c)
+//@   props C05 C13 C17
+//@   pure
+//@   ensures result == isNewLine(c)
+
+//@ func IsDigit(c)
+//@   props C05 C10
+//@   pure
+//@   ensures result == isDigit(c)
+
+//@ func IsHexDigit(c)
+//@   props C05
+//@   pure
+//@   ensures result == isHexDigit(c)
+
+//@ func IsValidUserTypeNameByte(c)
+//@   props C03
+//@   pure
+//@   ensures result == isNameByte(c)
+
+//@ func (Bytes).TrimSpacesFromLeft()
+//@   props C17
+//@   nopanic
+//@   ensures 0 <= result.$off - b.$off && result.$off - b.$off <= len(b)
+//@   ensures result.$arr == b.$arr && len(result) == len(b) - (result.$off - b.$off)
+//@   ensures allBlank(b, 0, result.$off - b.$off)
+//@   ensures len(result) > 0 && len(result) < len(b) ==> !isBlank(result[0])
+//@   loop 0 invariant -1 <= rangeindex && rangeindex < len(b)
+//@   loop 0 invariant allBlank(b, 0, rangeindex + 1)
+//@   loop 0 decreases len(b) - rangeindex
+
+//@ func (Bytes).CountSpacesFromLeft()
+//@   props C17
+//@   nopanic
+//@   ensures 0 <= result && result <= len(b) && allBlank(b, 0, result)
+//@   ensures result < len(b) ==> (result == 0 || !isBlank(b[result]))
+//@   ensures result > 0 ==> result < len(b)
+//@   loop 0 invariant -1 <= rangeindex && rangeindex < len(b)
+//@   loop 0 invariant allBlank(b, 0, rangeindex + 1)
+//@   loop 0 decreases len(b) - rangeindex
+
+//@ func (Bytes).Slice(begin, end)
+//@   props C06
+//@   requires begin <= end + 1 && end + 1 <= cap(b)
+//@   nopanic
+//@   ensures result.$arr == b.$arr && result.$off == b.$off + begin && len(result) == end + 1 - begin
